@@ -1246,11 +1246,12 @@ func c19Round(r *Run, rng *gen.Rng, st *c19Stats, corpus []string, roundSize, sw
 		}
 		size := 0
 		for _, f := range inv.Spec.Files {
-			if strings.HasSuffix(f.Path, ".tsh") || !strings.Contains(path.Base(f.Path), ".") {
+			// (every file counts, whatever its name: an input may be called draft.tmp or --help)
+			if !f.Dir && f.Link == "" && !strings.HasPrefix(f.Path, "/bin/") && !strings.HasPrefix(f.Path, "/usr/") && !strings.HasPrefix(f.Path, "/opt/homebrew/") {
 				size += len(f.Data)
 			}
 		}
-		if size > 12000 {
+		if size > 20000 {
 			continue // (some hundred transpilations of a large program take longer than one invocation may)
 		}
 		c := *inv
